@@ -112,9 +112,14 @@ let parse_seq (s : string) : obs list = List.map parse_outcome (split '|' s)
 
 let parse_prec (s : string) : prec * reference list =
   match String.split_on_char ':' s with
-  | [id; ac; na; de; syms; rows; refs] ->
+  | id :: ac :: na :: de :: syms :: rows :: refs :: more ->
       let rows = List.map (fun r -> match String.split_on_char ',' r with
-        | l :: toks -> { pr_label = bytes_of_string l; pr_toks = List.map bytes_of_string toks }
+        | l :: toks ->
+            let (toks, tail) = match List.rev toks with
+              | t :: rest when String.length t > 0 && t.[0] = '~' ->
+                  (List.rev rest, bytes_of_hex (String.sub t 1 (String.length t - 1)))
+              | _ -> (toks, []) in
+            { pr_label = bytes_of_string l; pr_toks = List.map bytes_of_string toks; pr_tail = tail }
         | [] -> failwith "row") (split '/' rows) in
       let refs = if refs = "-" then [] else
         List.map (fun r -> match String.split_on_char ',' r with
@@ -122,7 +127,11 @@ let parse_prec (s : string) : prec * reference list =
               { ref_local = n_of_int (int_of_string l); ref_xref = opt_str x; ref_title = opt_str t;
                 ref_link = opt_str k; ref_pmid = opt_str p }
           | _ -> failwith "ref") (String.split_on_char '/' refs) in
+      let (po, sep) = match more with
+        | [po; sep] -> (po = "1", (match opt_str sep with Some b -> b | None -> []))
+        | _ -> (false, bytes_of_string "  ") in
       ({ p_id = opt_str id; p_ac = opt_str ac; p_na = opt_str na; p_de = opt_str de;
+         p_po = po; p_sep = sep;
          p_syms = (if syms = "-" then [] else bytes_of_string syms); p_rows = rows }, refs)
   | _ -> failwith ("bad record " ^ s)
 
@@ -212,7 +221,10 @@ let () =
                    if get "lay" = "canon" then begin
                      let vv = opt_str (get "vv") in
                      let printed = print_file vv (get "le" = "crlf") (get "fnl" = "1") (List.map fst precs) in
-                     if printed <> data then set_v "DIFF printer: harness print_canon <> TransfacPrint.print_file"
+                     if printed <> data then set_v "DIFF printer: harness print_canon <> TransfacPrint.print_file";
+                     (* the case is claimed to lie inside the hypothesis of C14.reader_roundtrip *)
+                     if get "wf" = "1" && not (wf_file al vv (List.map fst precs)) then
+                       set_v "DIFF generator: canonical case outside TransfacPrint.wf_file"
                    end)
             end;
             (* --- correspondence with the extracted model --- *)
